@@ -275,6 +275,12 @@ func negatives(c *engine.Ctx, r *rand.Rand, et int32, key []byte, evals *int64) 
 			}
 			tryWrap("append-1", append(append([]byte{}, wb...), 0), "append", gk, usage, fromAcc)
 			tryWrap("other-key", wb, "other-key", other, usage, fromAcc)
+			for _, pos := range []int{len(gk.KeyValue) - 1, len(gk.KeyValue) - 3, 0} {
+				// a key differing from the right one in one late byte only (0x02: not a DES parity bit), after the right key was used
+				near := types.EncryptionKey{KeyType: gk.KeyType, KeyValue: append([]byte{}, gk.KeyValue...)}
+				near.KeyValue[pos] ^= 0x02
+				tryWrap(fmt.Sprintf("near-key-byte-%d", pos), wb, "other-key", near, usage, fromAcc)
+			}
 			for _, u := range []uint32{22, 23, 25, 0, 1024} {
 				tryWrap(fmt.Sprintf("usage-%d", u), wb, "other-usage", gk, u, fromAcc)
 			}
@@ -364,6 +370,11 @@ func negatives(c *engine.Ctx, r *rand.Rand, et int32, key []byte, evals *int64) 
 			}
 			tryMIC("append-1", append(append([]byte{}, mb...), 0), "append", gk, 25, fromAcc, payload)
 			tryMIC("other-key", mb, "other-key", other, 25, fromAcc, payload)
+			for _, pos := range []int{len(gk.KeyValue) - 1, len(gk.KeyValue) - 3, 0} {
+				near := types.EncryptionKey{KeyType: gk.KeyType, KeyValue: append([]byte{}, gk.KeyValue...)}
+				near.KeyValue[pos] ^= 0x02
+				tryMIC(fmt.Sprintf("near-key-byte-%d", pos), mb, "other-key", near, 25, fromAcc, payload)
+			}
 			for _, u := range []uint32{22, 23, 24, 0} {
 				tryMIC(fmt.Sprintf("usage-%d", u), mb, "other-usage", gk, u, fromAcc, payload)
 			}
